@@ -1,0 +1,11 @@
+//go:build verif
+
+// Machine-checked contracts for this package (comment-only; compiled only with -tags verif,
+// and even then contributes no code).  Read by /verif/govc; see /verif/DESIGN.md.
+
+package consistenthash
+
+//@ -- every entry of the prime table is prime, the table is strictly ascending and ends at the largest
+//@ -- 16-bit prime (so a Maglev lookup-table size taken from it is prime, which the permutation argument needs)
+//@ layout primeTable: allprime(pr) && ascending(pr) && last(pr) == 65521 && first(pr) == 2
+//@   property C33
